@@ -882,4 +882,323 @@ Proof.
   exists p3. eapply lstep_trans; [exact S1|]. eapply lstep_trans; eassumption.
 Qed.
 
+(* --- the measure --- *)
+
+(* lexicographic: distance of [matched] to the leader's last index, then (probing) the
+   distance of next_idx to matched, with Replicate above every Probe value *)
+Definition mu (pr : progress) : N :=
+  (ll_last LL - matched pr) * (ll_last LL + 3) +
+  match pr_state pr with Probe => next_idx pr - matched pr | _ => ll_last LL + 2 end.
+
+Lemma mu_key p q : pkey p = pkey q -> mu p = mu q.
+Proof.
+  unfold pkey, mu. intros H. injection H as H1 H2 H3. rewrite H1 in H3 |- *. rewrite H2.
+  destruct (pr_state q); try reflexivity. rewrite H3. reflexivity.
+Qed.
+
+Lemma mu_bound b pr : PrInv b pr -> b <= ll_last LL ->
+  mu pr <= (ll_last LL - matched pr) * (ll_last LL + 3) + (ll_last LL + 2).
+Proof.
+  intros [P1 P2 P3 P4 P5 P6 P7 P8] Hb. unfold mu. destruct (pr_state pr); lia.
+Qed.
+
+Lemma mu_lt_matched b p q :
+  PrInv b q -> b <= ll_last LL -> matched p < matched q -> mu q < mu p.
+Proof.
+  intros HQ Hb Hm. pose proof (mu_bound b q HQ Hb) as Hq. pose proof HQ as [_ _ Q3 _ _ _ _ _].
+  unfold mu at 2.
+  assert (Hk : (ll_last LL - matched q) * (ll_last LL + 3) + (ll_last LL + 3)
+               <= (ll_last LL - matched p) * (ll_last LL + 3)).
+  { replace ((ll_last LL - matched q) * (ll_last LL + 3) + (ll_last LL + 3))
+      with ((ll_last LL - matched q + 1) * (ll_last LL + 3)) by lia.
+    apply N.mul_le_mono_r. lia. }
+  lia.
+Qed.
+
+(* an append in flight that is bound to change the key when it is answered *)
+Definition obl (pr : progress) (x : msg) : Prop :=
+  snd_app x /\ matched pr <= m_index x /\
+  (matched pr < m_index x \/ m_entries x <> []) /\
+  (pr_state pr = Probe -> next_idx pr - 1 = m_index x).
+
+Lemma pkey_inv p q : pkey p = pkey q ->
+  pr_state p = pr_state q /\ matched p = matched q /\ (pr_state p = Probe -> next_idx p = next_idx q).
+Proof.
+  unfold pkey. intros H. injection H as H1 H2 H3. split; [exact H1|]. split; [exact H2|].
+  intros Hs. rewrite <- H1, Hs in H3. exact H3.
+Qed.
+
+Lemma obl_key p q x : pkey p = pkey q -> obl p x -> obl q x.
+Proof.
+  intros H (A & B & C0 & D). destruct (pkey_inv _ _ H) as (H1 & H2 & H3).
+  unfold obl. rewrite <- H2. split; [exact A|]. split; [exact B|]. split; [exact C0|].
+  intros Hs. rewrite <- H1 in Hs. rewrite <- (H3 Hs). exact (D Hs).
+Qed.
+
+(* Raft::step of a leader on a same-term response *)
+Lemma step_leader_same_term L m :
+  r_state L = Leader -> r_term L = T -> m_term m = T ->
+  (m_type m = MsgAppendResponse ->
+   step L m = (r' <- handle_append_response L m ;; Ok (r', E_OK))) /\
+  (m_type m = MsgHeartbeatResponse ->
+   step L m = (r' <- handle_heartbeat_response L m ;; Ok (r', E_OK))).
+Proof.
+  intros Hs Ht Hm. unfold step. rewrite Hm, Ht.
+  assert (E0 : (T =? 0) = false) by (apply N.eqb_neq; exact HT). rewrite E0, N.ltb_irrefl.
+  cbn [bind]. rewrite Hs. split; intros Hty; rewrite Hty.
+  - change (MsgAppendResponse =? MsgHup) with false.
+    change (MsgAppendResponse =? MsgRequestVote) with false.
+    change (MsgAppendResponse =? MsgRequestPreVote) with false. cbn [orb].
+    unfold step_leader. rewrite Hty. reflexivity.
+  - change (MsgHeartbeatResponse =? MsgHup) with false.
+    change (MsgHeartbeatResponse =? MsgRequestVote) with false.
+    change (MsgHeartbeatResponse =? MsgRequestPreVote) with false. cbn [orb].
+    unfold step_leader. rewrite Hty. reflexivity.
+Qed.
+
+Lemma ack_pr_PrInv b pr cmt : PrInv b pr -> PrInv b (ack_pr pr cmt) /\ pkey (ack_pr pr cmt) = pkey pr.
+Proof.
+  intros [P1 P2 P3 P4 P5 P6 P7 P8].
+  pose proof (ack_pr_fields pr cmt) as (A1 & A2 & A3 & A4 & A5 & A6 & A7 & A8 & _).
+  split.
+  - constructor; rewrite ?A3, ?A4, ?A5, ?A6, ?A8; assumption.
+  - unfold pkey. rewrite A3, A4, A5. reflexivity.
+Qed.
+
+Lemma hb_pr_PrInv b pr cmt : PrInv b pr -> PrInv b (hb_pr pr cmt) /\ pkey (hb_pr pr cmt) = pkey pr.
+Proof.
+  intros [P1 P2 P3 P4 P5 P6 P7 P8].
+  pose proof (hb_pr_fields pr cmt) as (A1 & A2 & A3 & A4 & A5 & A6 & A7 & A8 & _).
+  split.
+  - constructor; rewrite ?A3, ?A4, ?A5, ?A6, ?A8; assumption.
+  - unfold pkey. rewrite A3, A4, A5. reflexivity.
+Qed.
+
+(* an advancing acknowledgement *)
+Lemma acked_pr_PrInv b pr idx pr2 :
+  PrInv b pr -> b <= ll_last LL -> matched pr < idx -> idx <= b ->
+  acked_pr pr idx = Ok pr2 ->
+  PrInv b pr2 /\ matched pr2 = idx /\ mu pr2 < mu pr.
+Proof.
+  intros HP Hb Hm Hi H. pose proof HP as [P1 P2 P3 P4 P5 P6 P7 P8].
+  pose proof (acked_pr_fields pr idx pr2 Hm H) as (F1 & F2 & F3 & F4).
+  pose proof (maybe_update_fields pr idx Hm) as (U1 & U2 & U3 & U4 & U5 & U6 & U7 & U8).
+  assert (HP2 : PrInv b pr2).
+  { unfold acked_pr in H. cbv zeta in H. rewrite U4 in H.
+    remember (fst (maybe_update pr idx)) as p1 eqn:E1. clear E1.
+    destruct P1 as [Es|Es]; rewrite Es in H, F4.
+    - assert (H2 : become_replicate p1 = pr2) by (inversion H; reflexivity). clear H.
+      destruct F4 as (G1 & G2 & G3).
+      constructor.
+      + right. exact G1.
+      + rewrite F1. lia.
+      + rewrite F1. lia.
+      + rewrite F1. lia.
+      + rewrite G2. lia.
+      + rewrite <- H2. cbn. rewrite U7. exact P6.
+      + rewrite G3. reflexivity.
+      + rewrite G3. cbn. rewrite P7. exact P8.
+    - inv_bind H. assert (H2 : set_ins p1 x = pr2) by (inversion H; reflexivity). clear H.
+      destruct F4 as (G1 & G2 & G3).
+      rewrite U5 in Hx. destruct (free_to_cap _ _ _ Hx P7) as [C1 C2].
+      constructor.
+      + right. exact G1.
+      + rewrite F1. lia.
+      + rewrite F1. lia.
+      + rewrite F1. lia.
+      + rewrite G2. lia.
+      + rewrite <- H2. cbn. rewrite U7. exact P6.
+      + rewrite <- H2. cbn. exact C1.
+      + rewrite <- H2. cbn. rewrite C2. exact P8. }
+  split; [exact HP2|]. split; [exact F1|].
+  apply (mu_lt_matched b); [exact HP2|exact Hb|lia].
+Qed.
+
+Lemma maybe_update_noop pr idx :
+  idx <= matched pr -> matched pr < next_idx pr -> fst (maybe_update pr idx) = pr.
+Proof.
+  intros H1 H2. unfold maybe_update.
+  destruct (matched pr <? idx) eqn:E; [lia|].
+  destruct (next_idx pr <? idx + 1) eqn:E2; [lia|]. reflexivity.
+Qed.
+
+(* MAIN building block, leader side: one truthful response of the follower *)
+Lemma leader_step_resp b L pr m L' c :
+  LCore L -> get_pr L f = Some pr -> PrInv b pr -> b <= ll_last LL ->
+  resp_ok b m -> step L m = Ok (L', c) ->
+  exists pr', lfr L L' /\ mext L L' /\ get_pr L' f = Some pr' /\ PrInv b pr' /\
+    matched pr <= matched pr' /\ (mu pr' < mu pr \/ pkey pr' = pkey pr) /\
+    (m_type m = MsgAppendResponse -> m_reject m = false -> m_index m <= matched pr') /\
+    (m_type m = MsgAppendResponse -> m_reject m = true ->
+       (pr_state pr = Replicate \/ next_idx pr - 1 = m_index m) -> mu pr' < mu pr) /\
+    (m_type m = MsgHeartbeatResponse -> matched pr < ll_last LL ->
+       exists x, r_msgs L' = r_msgs L ++ [x] /\ obl pr' x).
+Proof.
+  intros HC Hg HP Hb (Rt & Rf & Rto & Rk) H.
+  destruct (step_leader_same_term L m (lc_state _ HC) (lc_term _ HC) Rt) as [EA EH].
+  pose proof HP as [P1 P2 P3 P4 P5 P6 P7 P8].
+  destruct Rk as [(Hty & Hctx)|[(Hty & Hrej & Hidx)|(Hty & Hrej & Hrs & Hidx)]].
+  - (* heartbeat response *)
+    rewrite (EH Hty) in H. inv_bind H. inversion H; subst x c; clear H.
+    rewrite heartbeat_response_eq, Rf, Hg in Hx.
+    inv_bind Hx. rename x into pr1.
+    destruct (hb_pr_PrInv b pr (m_commit m) HP) as [HPh Hkh].
+    pose proof (hb_pr_fields pr (m_commit m)) as (A1 & A2 & A3 & A4 & A5 & A6 & A7 & A8 & _).
+    pose proof (hb_window_fields _ _ Hx0) as (W1 & W2 & W3 & W4 & W5 & W6 & W7 & W8 & W9 & W10).
+    assert (HP1 : PrInv b pr1 /\ pkey pr1 = pkey pr /\ is_paused pr1 = false).
+    { destruct (pstate_eqb (pr_state (hb_pr pr (m_commit m))) Replicate
+                && full (ins (hb_pr pr (m_commit m)))) eqn:E.
+      - apply andb_prop in E. destruct E as [E1 E2].
+        assert (Es : pr_state (hb_pr pr (m_commit m)) = Replicate)
+          by (destruct (pr_state (hb_pr pr (m_commit m))); cbn in E1; congruence).
+        pose proof (W10 Es E2) as Hfree.
+        destruct (free_first_one_cap _ _ Hfree ltac:(rewrite A6; exact P7)) as [C1 C2].
+        destruct (free_first_one_unfull _ _ Hfree E2 ltac:(rewrite A6; exact P7)
+                    ltac:(rewrite A6; exact P8)) as [Hnf _].
+        split; [|split].
+        + constructor; rewrite ?W3, ?W4, ?W5, ?W7, ?A3, ?A4, ?A5, ?A8; auto.
+          rewrite C2, A6. exact P8.
+        + unfold pkey. rewrite W3, W4, W5. exact Hkh.
+        + unfold is_paused. rewrite W5, Es. exact Hnf.
+      - assert (Heq : pr1 = hb_pr pr (m_commit m)).
+        { apply W9. apply andb_false_iff in E. destruct E as [E|E]; [left|right; exact E].
+          destruct (pr_state (hb_pr pr (m_commit m))); cbn in E; congruence. }
+        subst pr1. split; [exact HPh|]. split; [exact Hkh|].
+        unfold is_paused. rewrite A5.
+        destruct P1 as [Es|Es]; rewrite Es; [exact A1|].
+        rewrite A5, Es in E. cbn [pstate_eqb andb] in E. exact E. }
+    destruct HP1 as (HP1 & Hk1 & Hnp).
+    assert (Htail : forall r1, hb_ro_tail r1 m = Ok r1).
+    { intros r1. unfold hb_ro_tail. rewrite Hctx. rewrite orb_true_r. reflexivity. }
+    inv_bind Hx. rewrite Htail in Hx. inversion Hx; subst x; clear Hx.
+    match goal with Hs : (if hb_wants_send _ _ then _ else _) = Ok _ |- _ => rename Hs into Hx end.
+    destruct (same_ents_lookups _ (lc_log _ HC)) as (_ & Ll & _).
+    unfold hb_wants_send in Hx. rewrite Ll in Hx.
+    assert (Hq1 : pending_request_snapshot pr1 = 0) by (apply (pi_snapreq _ _ HP1)).
+    rewrite Hq1 in Hx. change (negb (0 =? INVALID_INDEX)) with false in Hx. rewrite orb_false_r in Hx.
+    assert (Hm1 : matched pr1 = matched pr) by (rewrite W3; exact A3).
+    rewrite Hm1 in Hx.
+    destruct (matched pr <? ll_last LL) eqn:Elt.
+    + inv_bind Hx. destruct x as [[r1 p1] sent]. inversion Hx; subst L'; clear Hx.
+      match goal with Hs : maybe_send_append _ _ _ _ = Ok _ |- _ => rename Hs into Hsd end.
+      destruct (leader_send_append b L pr1 true r1 p1 sent (lc_log _ HC) (lc_batch _ HC)
+                  (lc_term _ HC) (lc_id _ HC) HP1 Hsd) as (HPp & Hkp & _ & Hs & Hsent).
+      assert (sent = true) by (apply Hsent; [exact Hnp|left; reflexivity]). subst sent.
+      destruct (Hs eq_refl) as (x & -> & Sx & Ix & Ne & _).
+      exists p1.
+      split; [eapply lfr_trans; [apply msgs_only_lfr; apply msgs_only_set|apply put_pr_lfr]|].
+      split; [exists [x]; split; [reflexivity|]; constructor; [intros _; exact Sx|constructor]|].
+      split; [apply get_pr_put_same|]. split; [exact HPp|].
+      assert (Hkk : pkey p1 = pkey pr) by congruence.
+      split; [inversion Hkk; lia|]. split; [right; exact Hkk|].
+      split; [intros E; rewrite Hty in E; discriminate E|].
+      split; [intros E; rewrite Hty in E; discriminate E|].
+      intros _ _. exists x. split; [reflexivity|].
+      apply (obl_key pr1); [congruence|].
+      pose proof HP1 as [Q1 Q2 Q3 Q4 Q5 Q6 Q7 Q8].
+      split; [exact Sx|]. split; [lia|]. split.
+      * destruct (N.eq_dec (next_idx pr1) (matched pr1 + 1)) as [En|En]; [|left; lia].
+        right. apply Ne. apply N.ltb_lt in Elt. lia.
+      * intros _. symmetry. exact Ix.
+    + inversion Hx; subst L'; clear Hx. exists pr1.
+      split; [apply put_pr_lfr|]. split; [apply mext_same; reflexivity|].
+      split; [apply get_pr_put_same|]. split; [exact HP1|]. split; [lia|].
+      split; [right; exact Hk1|].
+      split; [intros E; rewrite Hty in E; discriminate E|].
+      split; [intros E; rewrite Hty in E; discriminate E|].
+      intros _ Hlt. apply N.ltb_ge in Elt. lia.
+  - (* acknowledgement *)
+    rewrite (EA Hty) in H. inv_bind H. inversion H; subst x c; clear H.
+    rewrite <- Rf in Hg. rewrite (append_ack_eq L m pr Hg Hrej) in Hx. cbv zeta in Hx. rewrite Rf in Hg.
+    destruct (ack_pr_PrInv b pr (m_commit m) HP) as [HPa Hka].
+    pose proof (ack_pr_fields pr (m_commit m)) as (A1 & A2 & A3 & A4 & A5 & A6 & A7 & A8 & _).
+    destruct (matched pr <? m_index m) eqn:Elt.
+    + apply N.ltb_lt in Elt. inv_bind Hx. rename x into pr2.
+      destruct (acked_pr_PrInv b _ _ _ HPa Hb ltac:(rewrite A3; exact Elt) Hidx Hx0) as (HP2 & Hm2 & Hmu2).
+      rewrite (mu_key _ _ Hka) in Hmu2.
+      rewrite Rf in Hx.
+      assert (HC2 : LCore (put_pr L f pr2)) by (eapply lfr_LCore; [apply put_pr_lfr|exact HC]).
+      destruct (ack_tail_lstep b _ pr2 m _ L' HC2 (get_pr_put_same _ _ _) HP2 Rf Hx)
+        as (pr' & S1 & S2 & S3 & S4 & S5).
+      exists pr'.
+      split; [eapply lfr_trans; [apply put_pr_lfr|exact S1]|].
+      split; [eapply mext_trans; [apply mext_same; reflexivity|exact S2]|].
+      split; [exact S3|]. split; [exact S4|].
+      assert (Hm' : matched pr' = m_index m) by (inversion S5; congruence).
+      split; [lia|]. split; [left; rewrite (mu_key _ _ S5); exact Hmu2|].
+      split; [intros _ _; lia|].
+      split; [intros _ E; congruence|].
+      intros E; rewrite Hty in E; discriminate E.
+    + apply N.ltb_ge in Elt.
+      rewrite maybe_update_noop in Hx by (rewrite ?A3, ?A4; lia).
+      inversion Hx; subst L'; clear Hx.
+      exists (ack_pr pr (m_commit m)). rewrite Rf.
+      split; [apply put_pr_lfr|]. split; [apply mext_same; reflexivity|].
+      split; [apply get_pr_put_same|]. split; [exact HPa|]. split; [lia|].
+      split; [right; exact Hka|]. split; [intros _ _; lia|].
+      split; [intros _ E; congruence|].
+      intros E; rewrite Hty in E; discriminate E.
+  - (* rejection *)
+    rewrite (EA Hty) in H. inv_bind H. inversion H; subst x c; clear H.
+    rewrite <- Rf in Hg.
+    destruct (reject_npi L m) as [npi|s] eqn:Enpi.
+    2:{ rewrite (append_reject_eq L m pr Hg Hrej), Enpi in Hx. discriminate. }
+    destruct (ack_pr_PrInv b pr (m_commit m) HP) as [HPa Hka].
+    destruct P1 as [Es|Es].
+    + (* probing *)
+      destruct (reject_repairs_next_probe L m pr npi Hg Hrej Hrs ltac:(congruence) Enpi) as [Hns Hst].
+      destruct (N.eq_dec (next_idx pr - 1) (m_index m)) as [Eq|Ne].
+      * assert (Hn0 : next_idx pr <> 0) by lia.
+        rewrite (Hns (conj Hn0 Eq)) in Hx. rewrite Rf in Hx, Hg.
+        set (pr2 := repaired_probe pr (m_commit m) (m_index m) npi) in *.
+        pose proof (repaired_next_bounds pr (m_index m) npi Hn0 Eq) as (B1 & B2 & B3 & B4 & _).
+        assert (B3' : repaired_next pr (m_index m) npi < next_idx pr) by (apply B3; lia).
+        assert (HP2 : PrInv b pr2).
+        { subst pr2. unfold repaired_probe. constructor; cbn; auto; lia. }
+        assert (Hmu2 : mu pr2 < mu pr).
+        { unfold mu. subst pr2. unfold repaired_probe. cbn. rewrite Es. lia. }
+        assert (HC2 : LCore (put_pr L f pr2)) by (eapply lfr_LCore; [apply put_pr_lfr|exact HC]).
+        destruct (send_append_to_lstep b _ pr2 f L' HC2 (get_pr_put_same _ _ _) HP2 Hx)
+          as (pr' & S1 & S2 & S3 & S4 & S5).
+        exists pr'.
+        split; [eapply lfr_trans; [apply put_pr_lfr|exact S1]|].
+        split; [eapply mext_trans; [apply mext_same; reflexivity|exact S2]|].
+        split; [exact S3|]. split; [exact S4|].
+        assert (Hm' : matched pr' = matched pr) by (inversion S5; subst pr2; cbn in *; congruence).
+        split; [lia|]. split; [left; rewrite (mu_key _ _ S5); exact Hmu2|].
+        split; [intros _ E; congruence|].
+        split; [intros _ _ _; rewrite (mu_key _ _ S5); exact Hmu2|].
+        intros E; rewrite Hty in E; discriminate E.
+      * rewrite (Hst (or_intror Ne)) in Hx. inversion Hx; subst L'; clear Hx. rewrite Rf in *.
+        exists (ack_pr pr (m_commit m)).
+        split; [apply put_pr_lfr|]. split; [apply mext_same; reflexivity|].
+        split; [apply get_pr_put_same|]. split; [exact HPa|].
+        pose proof (ack_pr_fields pr (m_commit m)) as (_ & _ & A3 & _).
+        split; [lia|]. split; [right; exact Hka|].
+        split; [intros _ E; congruence|].
+        split; [intros _ _ [E|E]; congruence|].
+        intros E; rewrite Hty in E; discriminate E.
+    + (* replicating: the rejected index is above matched, so the rejection is not stale *)
+      destruct (reject_repairs_next_replicate L m pr npi Hg Hrej Hrs Es Enpi) as [Hns _].
+      rewrite (Hns ltac:(lia)) in Hx. rewrite Rf in Hx, Hg.
+      set (pr2 := repaired_replicate pr (m_commit m)) in *.
+      assert (HP2 : PrInv b pr2).
+      { subst pr2. unfold repaired_replicate. constructor; cbn; auto; try lia;
+          try (rewrite P7; exact P8); try (rewrite P7; reflexivity). }
+      assert (Hmu2 : mu pr2 < mu pr).
+      { unfold mu. subst pr2. unfold repaired_replicate. cbn. rewrite Es. lia. }
+      assert (HC2 : LCore (put_pr L f pr2)) by (eapply lfr_LCore; [apply put_pr_lfr|exact HC]).
+      destruct (send_append_to_lstep b _ pr2 f L' HC2 (get_pr_put_same _ _ _) HP2 Hx)
+        as (pr' & S1 & S2 & S3 & S4 & S5).
+      exists pr'.
+      split; [eapply lfr_trans; [apply put_pr_lfr|exact S1]|].
+      split; [eapply mext_trans; [apply mext_same; reflexivity|exact S2]|].
+      split; [exact S3|]. split; [exact S4|].
+      assert (Hm' : matched pr' = matched pr) by (inversion S5; subst pr2; cbn in *; congruence).
+      split; [lia|]. split; [left; rewrite (mu_key _ _ S5); exact Hmu2|].
+      split; [intros _ E; congruence|].
+      split; [intros _ _ _; rewrite (mu_key _ _ S5); exact Hmu2|].
+      intros E; rewrite Hty in E; discriminate E.
+Qed.
+
 End Pair.
